@@ -275,6 +275,10 @@ type FormatCase struct {
 	Package  Package           `json:"package"`
 	Sources  map[string]string `json:"sources"`  // package-relative path -> content
 	Makefile bool              `json:"makefile"` // package restricted to what Makefile annotations can say
+	// StarMacros renders BUILD.star through a macro library in another directory
+	// (absolute load from the BUILD file, relative load inside the library, and a
+	// same-named decoy module next to the BUILD file).
+	StarMacros bool `json:"starlark_macros"`
 }
 
 var hostile = []string{"yes", "no", "~", "1.0", "null", "a: b", "# c", " lead", "trail ", "0x10", "true", "-", "[x]", "{y}", "a,b", "it's", "say \"hi\"", "back\\slash", "*.txt", "@at", "`tick`", "|", ">", "%p", "!tag", "&anchor", "*alias", "123", "1e3", "2024-01-01", "on", "off"}
@@ -289,6 +293,7 @@ func genStr(t *rapid.T, label string, plain []string) string {
 func genFormatCase(t *rapid.T) FormatCase {
 	c := FormatCase{Pkg: rapid.SampledFrom([]string{"", "p", "p/q"}).Draw(t, "pkg"), Sources: map[string]string{}}
 	c.Makefile = rapid.IntRange(0, 2).Draw(t, "makefile") == 0
+	c.StarMacros = rapid.IntRange(0, 2).Draw(t, "starmacros") == 0
 	for _, f := range rapid.SliceOfNDistinct(rapid.SampledFrom([]string{"a.txt", "b.txt", "c.md", "src/a.txt", "src/b.txt", "src/deep/c.txt", "data.json"}), 0, 6, rapid.ID[string]).Draw(t, "files") {
 		c.Sources[f] = "x"
 	}
@@ -388,6 +393,20 @@ func runFormats(c FormatCase) (pbt.Result, error) {
 	if err := yaml.Unmarshal([]byte(renderings["BUILD.yaml"]), &back); err != nil || renderJSON(back) != renderJSON(c.Package) {
 		return pbt.Result{Discard: true}, nil
 	}
+	extra := map[string]map[string]string{}
+	if c.StarMacros {
+		star := "load(\"//tools/macros/defs.star\", \"mk\")\n\n" + strings.ReplaceAll(renderStarlark(c.Package), "target(\n", "mk(\n")
+		renderings["BUILD.star"] = star
+		extra["BUILD.star"] = map[string]string{
+			"tools/macros/defs.star":    "load(\"helpers.star\", \"wrap\")\n\ndef mk(**kwargs):\n    target(**wrap(kwargs))\n",
+			"tools/macros/helpers.star": "def wrap(d):\n    return d\n",
+			// decoy with the same name next to the BUILD file: must not be picked up by the library's relative load
+			filepath.Join(c.Pkg, "helpers.star"): "def wrap(d):\n    d = dict(d)\n    d[\"command\"] = \"decoy\"\n    return d\n",
+		}
+		if c.Pkg == "tools/macros" {
+			delete(extra["BUILD.star"], filepath.Join(c.Pkg, "helpers.star"))
+		}
+	}
 	names := make([]string, 0, len(renderings))
 	for n := range renderings {
 		names = append(names, n)
@@ -398,6 +417,9 @@ func runFormats(c FormatCase) (pbt.Result, error) {
 		files := map[string]string{filepath.Join(c.Pkg, n): renderings[n]}
 		for p, content := range c.Sources {
 			files[filepath.Join(c.Pkg, p)] = content
+		}
+		for p, content := range extra[n] {
+			files[p] = content
 		}
 		r, ok := loadWorkspace("fmt", files, nil, 4)
 		if !ok {
@@ -419,6 +441,9 @@ func runFormats(c FormatCase) (pbt.Result, error) {
 		}
 	}
 	res.Classes = append(res.Classes, fmt.Sprintf("formats=%d", len(names)))
+	if c.StarMacros {
+		res.Classes = append(res.Classes, "starlark-macros")
+	}
 	if ref.err != nil {
 		res.Classes = append(res.Classes, "rejected-by-all")
 	}
